@@ -29,6 +29,15 @@ MultiprocessingOutput = namedtuple(
     )
 
 
+def _study_inputs_were_logged(mp_log_path: str) -> bool:
+    """ Checks if a multiprocessing log file contains a complete list of the study's inputs. """
+
+    with open(mp_log_path, 'r') as mp_file:
+        lines = mp_file.readlines()
+
+    return ('------Inputs Below------\n' in lines) and ('------------\n' in lines)
+
+
 def multiprocessing_run(
     directory_name: str, study_name: str, study_function: callable, input_data: tuple,
     postprocess_func: callable = None, postprocess_args: tuple = None, postprocess_kwargs: dict = None,
@@ -105,7 +114,11 @@ def multiprocessing_run(
                         break
                     new_study_num += 1
             else:
-                study_restart = True
+                # The previous study can only be continued if it got as far as recording its inputs (no run is
+                #  started before that). Otherwise start it from the beginning.
+                study_restart = _study_inputs_were_logged(mp_log_path)
+                if verbose and not study_restart:
+                    print('\tPrevious study stopped before its inputs were recorded. Starting it again.')
 
     mp_log_path = os.path.join(dir_to_use, 'tpy_mp.log')
     input_data_to_use = input_data
